@@ -62,13 +62,15 @@ def run(tier, seed):
     one = [("GET",), ("HEAD",), ("POST",)]
     corp = [
         # every status line x header token x body form, each request method, peer closing or not
-        ("single", S("client", LINES, HDRS if not q else HDRS[:12], BODIES if not q else BODIES[:9], 1, 1,
-                     reqseqs=one if not q else one[:2], eofs=(False, True)), 4 if q else "all", False),
+        ("single", S("client", LINES if not q else ["s200", "s200_10", "s204", "s304", "sbadcode"], HDRS if not q else ["xa", "cl0", "cl3", "cl5", "cljunk", "cllist", "te", "close", "fold", "lf"],
+                     BODIES if not q else ["none", "b3", "b5", "ch", "chtr", "chshort"], 1, 1,
+                     reqseqs=one if not q else one[:2], eofs=(False, True)), 3 if q else 16, False),
         # header pairs
         ("pairs", S("client", ["s200"], ["cl3", "clows", "cllist", "te", "close", "fold", "lf"], ["none", "b3", "b5", "ch"],
                     2, 1, reqseqs=[("GET",)], eofs=(False, True)), 3 if q else "all", False),
         # two responses for two queued requests: octets after a complete response belong to the next request
-        ("pipe2", S("client", ["s200", "s204", "s404"], ["cl3", "te", "cl0"] + ([] if q else ["close"]), ["none", "b3", "ch"], 1, 2,
+        ("pipe2", S("client", ["s200", "s204", "s404"] if not q else ["s200", "s204"],
+                    ["cl3", "te", "cl0", "close"] if not q else ["cl3", "te"], ["none", "b3", "ch"], 1, 2,
                     reqseqs=[("GET", "GET"), ("HEAD", "GET"), ("GET", "HEAD")] if not q else [("GET", "GET"), ("HEAD", "GET")],
                     eofs=(False, True) if not q else (False,)), 3 if q else 10, False),
         # the peer closes after every proper prefix
